@@ -399,7 +399,7 @@ class Driver(object):
             if base is not None:
                 for k in rnd.sample(['correlation_id', 'message_id', 'timestamp'],
                                     rnd.randrange(0, 4)):
-                    base[k] = rnd.choice(['given', b'given', 7])
+                    base[k] = rnd.choice(['given', b'given', 7, '', b'', 0, None])
             out.append(self.case_create(base))
         for _ in range(80 if tier == 'quick' else 800):
             out.append(self.case_set(
